@@ -147,8 +147,47 @@ impl Serialize for Shown {
     }
 }
 
+thread_local! {
+    static LIVE: std::cell::Cell<usize> = const { std::cell::Cell::new(40) };
+    /// set while the harness itself renders a value (reference rendering): the gauge does not move
+    static LIVE_FROZEN: std::cell::Cell<bool> = const { std::cell::Cell::new(false) };
+}
+
+/// A value whose serialisation is not the same every time it is asked for: a live gauge, a
+/// countdown. Here: a string of `v`s that gets three characters shorter with every serialisation
+/// (so a second pass over the same message - after a buffer growth, say - writes a shorter
+/// document than the first).
+#[derive(Debug, Clone)]
+struct Live;
+
+impl Serialize for Live {
+    fn serialize<S: serde::Serializer>(&self, s: S) -> Result<S::Ok, S::Error> {
+        if LIVE_FROZEN.with(|f| f.get()) {
+            return s.serialize_str("vvvvv");
+        }
+        let k = LIVE.with(|c| {
+            let k = c.get();
+            c.set(if k > 3 { k - 3 } else { 40 });
+            k
+        });
+        s.serialize_str(&"v".repeat(k))
+    }
+}
+
+/// Strings made of `v`s only are renderings of a `Live` value: any of them is as good as another.
+fn norm_live(v: &mut Value) {
+    match v {
+        Value::String(s) if !s.is_empty() && s.bytes().all(|b| b == b'v') => *s = "<live>".into(),
+        Value::Array(a) => a.iter_mut().for_each(norm_live),
+        Value::Object(o) => o.values_mut().for_each(norm_live),
+        _ => {}
+    }
+}
+
 #[derive(Debug, Clone, Serialize)]
 enum Zoo {
+    Live(Live),
+    LiveIn { lead: String, gauge: Live, tail: String },
     Shown(Shown),
     ShownKey(BTreeMap<String, Shown>),
     Unit,
@@ -210,7 +249,7 @@ fn zoo_str(t: &mut Tape) -> String {
 
 fn gen_zoo(t: &mut Tape, depth: usize) -> Zoo {
     let leaf_only = depth == 0;
-    let pick = if leaf_only { 12 + t.draw(21) } else { t.draw(33) };
+    let pick = if leaf_only { 12 + t.draw(23) } else { t.draw(35) };
     let child = |t: &mut Tape| Box::new(gen_zoo(t, depth - 1));
     match pick {
         0 => Zoo::Struct { a: child(t), b: if t.draw(2) == 0 { None } else { Some(child(t)) } },
@@ -238,6 +277,8 @@ fn gen_zoo(t: &mut Tape, depth: usize) -> Zoo {
         28 => [Zoo::Adj(Adj::A), Zoo::Adj(Adj::B { x: 4 }), Zoo::Adj(Adj::C(zoo_str(t))), Zoo::Internal(Internal::P), Zoo::Internal(Internal::Q { y: true }), Zoo::Untagged(Untagged::N(5)), Zoo::Untagged(Untagged::S { s: zoo_str(t) })][t.draw(7)].clone(),
         29 => Zoo::Flat(Flat { k: 1, rest: (0..t.draw(3)).map(|i| (format!("f{i}"), i as i32)).collect() }),
         30 => Zoo::Shown(Shown { text: zoo_str(t), style: t.draw(4) as u8 }),
+        32 => Zoo::Live(Live),
+        33 => Zoo::LiveIn { lead: zoo_str(t), gauge: Live, tail: zoo_str(t) },
         31 => Zoo::ShownKey((0..t.draw(3)).map(|i| (format!("s{i}"), Shown { text: zoo_str(t), style: t.draw(4) as u8 })).collect()),
         _ => Zoo::Nested((0..t.draw(3)).map(|i| (0..i + t.draw(2)).map(|j| if j % 2 == 0 { None } else { Some(()) }).collect()).collect()),
     }
@@ -289,7 +330,9 @@ impl Msg {
             }
             Msg::ErrGone => json!({"error": "org.example.Gone"}),
             Msg::Zoo { v, as_kind } => {
+                LIVE_FROZEN.with(|f| f.set(true));
                 let p = serde_json::to_value(ZooP { v: v.clone() }).expect("serde_json takes every zoo value");
+                LIVE_FROZEN.with(|f| f.set(false));
                 match as_kind {
                     0 => json!({"method": "org.example.Zoo", "parameters": p}),
                     1 => json!({"parameters": p}),
@@ -647,7 +690,12 @@ fn short(m: &Msg) -> String {
     match m {
         Msg::BadKey { len } => format!("BadKey(lead {len} bytes) [refused: tuple map key]"),
         Msg::FailAfter { k, len } => format!("FailAfter(k={k}, pad {len} bytes) [refused by the value]"),
-        Msg::Zoo { v, as_kind } => format!("Zoo as {} {}", ["call", "reply", "error"][*as_kind as usize % 3], serde_json::to_string(v).unwrap_or_default()),
+        Msg::Zoo { v, as_kind } => {
+            LIVE_FROZEN.with(|f| f.set(true));
+            let text = serde_json::to_string(v).unwrap_or_default();
+            LIVE_FROZEN.with(|f| f.set(false));
+            format!("Zoo as {} {}", ["call", "reply", "error"][*as_kind as usize % 3], text)
+        }
         other => format!("{} ({} wire bytes)", format!("{other:?}").split(' ').next().unwrap_or(""), other.wire_len()),
     }
 }
@@ -658,6 +706,7 @@ impl Prop for Outbound {
     }
 
     fn run(&self, world: &World, want_sample: bool) -> Verdict {
+        LIVE.with(|c| c.set(40));
         let (ops, mode) = {
             let mut w = world.borrow_mut();
             if w.tape.draw(8) as u32 == SYS_MODE {
@@ -820,7 +869,13 @@ impl Prop for Outbound {
                             return;
                         }
                         for (j, (f, want)) in frames.iter().zip(pending.iter()).enumerate() {
-                            match serde_json::from_slice::<Value>(f) {
+                            let mut want = want.clone();
+                            norm_live(&mut want);
+                            let want = &want;
+                            match serde_json::from_slice::<Value>(f).map(|mut v| {
+                                norm_live(&mut v);
+                                v
+                            }) {
                                 Ok(v) if v == *want => {}
                                 Ok(v) => {
                                     fail("wrong-content", format!("frame {j} is {v} but {want} was submitted"));
